@@ -247,7 +247,7 @@ func main() {
 	if *prop == "C11" {
 		nPred, nHist := 1200, 30
 		if cfg.Thorough() {
-			nPred, nHist = 40000, 1200
+			nPred, nHist = 20000, 400
 		}
 		if *nOverride > 0 {
 			nHist = *nOverride
@@ -262,7 +262,7 @@ func main() {
 	} else {
 		nHist := 40
 		if cfg.Thorough() {
-			nHist = 1500
+			nHist = 600
 		}
 		if *nOverride > 0 {
 			nHist = *nOverride
